@@ -85,7 +85,8 @@ class FCtx(object):
                 return self.model._module_const(r[2], r[1])
             if t[1].startswith("six."):
                 return self.model.fold(ast.parse(t[1], mode="eval").body, self.module)
-            if t[1] in ("str", "int", "float", "bool", "dict", "list", "set", "tuple", "object", "bytes"):
+            if t[1] in ("str", "int", "float", "bool", "dict", "list", "set", "tuple", "object", "bytes", "frozenset", "complex",
+                        "bytearray"):
                 return TypeMarker(t[1])
             raise NotConst("global %s" % t[1])
         if t[0] in ("list", "tuple", "set"):
